@@ -51,10 +51,10 @@ def run_vtry(patch, prop):
     out = r.stdout
     if "error: patch failed" in out or "does not apply" in out or "No such file" in out and "patch" in out:
         return "skipped", out
+    if re.search(r"^VIOLATION property=%s\b" % prop, out, re.M):
+        return "fired", out        # (other rules of the check may have ended with an engine error)
     if "ENGINE-ERROR" in out:
         return "engine", out
-    if re.search(r"^VIOLATION property=%s\b" % prop, out, re.M):
-        return "fired", out
     if r.returncode == 0:
         return "silent", out
     return "engine", out
@@ -66,6 +66,14 @@ def selftest(ctx):
         raise EngineError("seeded/SWEEP.json missing: run bin/vsweep")
     sweep = json.load(open(sweep_p))
     mine = sorted(s for s, r in sweep.items() if ctx.prop in r.get("flagged_by", []))
+    # keep the tier bounded: all changes written against this property, plus a sample of the
+    # ones written against other properties that this check also reports
+    own = [s for s in mine if sweep[s]["breaks"] == ctx.prop]
+    others = [s for s in mine if sweep[s]["breaks"] != ctx.prop]
+    cap = int(os.environ.get("VERIF_SELFTEST_OTHERS", "12"))
+    ctx.count("SELFTEST", "seeded changes of other properties also caught (sampled %d)" % min(cap, len(others)),
+              len(others))
+    mine = own + others[::max(1, len(others) // cap)][:cap] if cap else own
     fired = skipped = 0
     for sname in mine:
         st, out = run_vtry(os.path.join(VERIF, "seeded", sname, "patch.diff"), ctx.prop)
